@@ -1032,7 +1032,12 @@ impl<'a, 'b> G<'a, 'b> {
                 let tn = ["Foo", "Bar", "Props", "State"][self.t.pick(4)];
                 self.push(tn);
                 if self.t.chance(60) {
-                    self.push("<T>");
+                    // generic parameters, some with defaults (the default of a variadic one is a type pack)
+                    let g = ["<T>", "<T>", "<T, U>", "<T = string>", "<T, R... = ()>", "<R... = (number)>", "<T, R... = (string, number)>", "<R... = ...any>"][self.t.pick(8)];
+                    self.push(g);
+                    if g.contains('=') {
+                        self.labels.insert("type-generic-default");
+                    }
                 }
                 self.sp();
                 self.push("=");
